@@ -275,12 +275,20 @@ Definition sizer := ctx -> path -> istream -> res Z.
 
 (* _actualsize: sizeof, except that Prefixed measures itself by reading its length field *)
 (* sc._actualsize(stream, context, path): the default is the static size; Prefixed measures its region; Renamed and the
-   adapters defer to their subcon (instance-level overrides -- the PrefixedArray macro -- are outside: reify refuses them) *)
+   adapters defer to their subcon; a FocusedSeq of the PrefixedArray shape carries the macro's own measure (reify accepts that
+   shape in a lazy position only with the instance attribute, and the attribute only on that shape) *)
 Definition prefixed_actualsize (P : con -> parser) (lc : con) (incl : bool) : sizer := fun cx p s =>
   let* (lv, s1) := P lc cx p s in
   let* n := vint_of lv in
   let* n := (if incl then let* k := sizeof lc cx p in Ok (n - k)%Z else Ok n) in
   Ok ((itell s1 - itell s) + n)%Z.
+
+(* the _actualsize the PrefixedArray macro attaches to its FocusedSeq: the count field is parsed under the macro's own path *)
+Definition counted_actualsize (P : con -> parser) (lc el : con) : sizer := fun cx p s =>
+  let* (lv, s1) := P lc cx p s in
+  let* n := vint_of lv in
+  let* k := sizeof el cx p in
+  Ok ((itell s1 - itell s) + n * k)%Z.
 
 Definition actualsize_with (P : con -> parser) : con -> sizer :=
   fix asz (c : con) : sizer := fun cx p s =>
@@ -289,6 +297,7 @@ Definition actualsize_with (P : con -> parser) : con -> sizer :=
     | CRenamed n c' => asz c' cx (p ++ [n]) s
     | CStringEncoded c' _ | CEnum c' _ | CFlagsEnum c' _ | CMapping c' _ | CHex c' | CHexDump c'
     | CExprValidator c' _ | COneOf c' _ | CNoneOf c' _ | CExprAdapter c' _ _ => asz c' cx p s
+    | CFocusedSeq _ [CRenamed _ (CRebuild lc _); CRenamed _ (CArray _ el)] => counted_actualsize P lc el cx p s
     | _ => sizeof c cx p
     end.
 
